@@ -10,6 +10,11 @@ NOTE = ('Trusted: z3 5.1 (cvc5 cross-check on samples in the thorough tier), CPy
 CHECKS = {
  'C01': ('Q1 invariant over all feasible x: reported dispatch of every node/step nets to zero', '6 C01',
          'For every catalogue shape and every feasible set-up path, unsat of "F(x) and node sum != 0" covers all parameter values, prices and all feasible solution vectors (hence every optimum any solver may return); bounded in structure (T<=8, <=3 nodes, <=5 assets).'),
+
+ 'C04': ('Q2 identities over symbolic parameters, prices and an arbitrary solution vector: sum of the real DCF table == -c.x, per asset == -c.x over the asset\'s own variable block', '6 C04',
+         'The accounting identities are decided for all parameter values, prices and ALL vectors x (not only optima) on every catalogue shape incl. split, periodic, coarse, scaled, structured, order book; asset blocks come from the recorded order/sizes of the assets\' own set-up calls, not from the mapping.'),
+ 'C07': ('structural comparison + Q2 term identities + Q1 (l<=u) between the assembled problem and the assets\' own problems, nodal-row bijection', '6 C07',
+         'For every catalogue shape and feasible set-up path: every entry of c,l,u,A,b of the assembled problem equals the owning asset\'s own entry as a term (for all parameter values), mapping rows equal the asset\'s own rows at offset positions, unmapped variables are inert, l<=u under the documented domain, nodal rows are in bijection with (node, step) pairs and carry the summed dispatch factors.'),
 }
 NA = {}
 props = [json.loads(l) for l in open(os.path.join(ROOT, 'properties.jsonl'))]
